@@ -4,4 +4,8 @@ set -e
 cd "$(dirname "$0")"
 python3 tools/extract.py "${VERIF_REPO:-/repo}" lean/Pulsar/Extracted.lean || true
 (cd lean && lake build Pulsar driver)
+# the source-level theorem files (about lean/Pulsar/ExtractedFns.lean as committed; every check regenerates that file
+# from the working tree and rebuilds what changed): built here only to make the first checks faster
+(cd lean && lake build Pulsar.Properties.C15Src Pulsar.Properties.C15SrcSoz Pulsar.Properties.C15SrcEnc Pulsar.Properties.C15SrcSkip \
+   Pulsar.Properties.C04Src Pulsar.Properties.C05Src Pulsar.Properties.C06Src Pulsar.Properties.C14Src Pulsar.Properties.C17Src >/dev/null 2>&1) || true
 echo "setup done"
